@@ -482,6 +482,24 @@ class RecCase(object):
 
     def step(self, rng):
         D = self.D
+        if D is not None and rng.random() < 0.08:
+            # unsetting a member (storing noValue): an OPTIONAL member becomes absent, a DEFAULT member goes back to
+            # its default
+            present = [n_ for n_ in ('b', 'c', 'd') if n_ in D]
+            if present:
+                nm = rng.choice(present)
+                how = rng.choice(['setitem', 'set-name', 'set-pos', 'set-pos-noarg'])
+                if how == 'setitem':
+                    self.obj[nm] = univ.noValue
+                elif how == 'set-name':
+                    self.obj.setComponentByName(nm, univ.noValue)
+                elif how == 'set-pos':
+                    self.obj.setComponentByPosition(NAMES.index(nm), univ.noValue)
+                else:
+                    self.obj.setComponentByPosition(NAMES.index(nm))
+                self.D = dict(D)
+                del self.D[nm]
+                return ('unset', nm, how)
         op = rng.choice(['set-name', 'set-name', 'set-pos', 'set-item', 'set-type', 'clear', 'reset', 'clone', 'read',
                          'read', 'read', 'bad-name', 'bad-pos', 'bad-value', 'update'])
         nm = rng.choice(NAMES)
@@ -722,6 +740,23 @@ class NestedCase(object):
 
     def step(self, rng):
         D = self.D
+        if D and rng.random() < 0.08:
+            present0 = [n_ for n_ in ('e', 'f', 'g') if n_ in D]
+            if present0:
+                # an OPTIONAL member of constructed type that holds something is unset: it is gone, contents and all
+                nm = rng.choice(present0)
+                how = rng.choice(['setitem', 'set-name', 'set-pos', 'set-pos-noarg'])
+                if how == 'setitem':
+                    self.obj[nm] = univ.noValue
+                elif how == 'set-name':
+                    self.obj.setComponentByName(nm, univ.noValue)
+                elif how == 'set-pos':
+                    self.obj.setComponentByPosition(NNAMES.index(nm), univ.noValue)
+                else:
+                    self.obj.setComponentByPosition(NNAMES.index(nm))
+                self.D = dict(D)
+                del self.D[nm]
+                return ('unset', nm, how)
         op = rng.choice(['set-whole', 'set-whole', 'set-a', 'nested-append', 'nested-setitem', 'nested-field', 'nested-sort',
                          'nested-clear', 'clear', 'reset', 'clone', 'read', 'read', 'read', 'bad-nested', 'bad-name'])
         if op == 'set-a':
